@@ -10,7 +10,7 @@ package lexer
 
 //@ func char
 //@   requires[C13] non-negative-position: position >= 0
-//@   ensures[C08,C11] the-byte-itself: (position < len(s) ==> result == s[position:position+1]) && (position >= len(s) ==> result == "")
+//@   ensures[C08,C11,C12,C13] the-byte-itself: (position < len(s) ==> result == s[position:position+1]) && (position >= len(s) ==> result == "")
 //
 //@ func newToken
 //@   ensures[C11] fields: result.value == value && result.tokenType == tokenType && result.row == row && result.column == column
